@@ -5,7 +5,7 @@ import time as _time
 from .boot import CTX, HarnessError
 from .world import World
 from .oracle import RaftOracle
-from .sched import Scheduler, draw_common
+from .sched import Scheduler, draw_common, RunAbort
 from .workload import KVApp
 
 
@@ -97,6 +97,8 @@ def run_cluster(seed, spec, cfg=None, events=None, tier='quick', max_wall=120.0,
                         break
                 if stop_at_violation and orc.violations and own_violation() is not None:
                     break
+            if hasattr(spec, 'quiet') and aborted is None and not (stop_at_violation and own_violation() is not None):
+                spec.quiet(w, orc, sch, w.apply)
             qr = cfg['sched'].get('quiet_rounds', 0)
             if qr and aborted is None and not (stop_at_violation and own_violation() is not None):
                 w.probe('quiet_phase_reached')
@@ -116,6 +118,8 @@ def run_cluster(seed, spec, cfg=None, events=None, tier='quick', max_wall=120.0,
             if hasattr(spec, 'after_replay'):
                 spec.after_replay(w, orc)
         orc.final()
+    except RunAbort as e:
+        aborted = str(e)
     except HarnessError:
         raise
     res = RunResult()
